@@ -35,6 +35,7 @@ TYPES.append(_t(81, "other"))        # Huge = [1<<61]struct{}
 TYPES.append(_t(82, "other"))        # chan *Big, Big = [1<<17]byte (reflect.ChanOf refuses `chan Big`)
 TYPES.append(_t(83, "other"))        # map[string]*T0
 TYPES.append(_t(84, "other"))        # func() *T0
+TYPES.append(_t(85, "other"))        # <-chan *T0: a type whose name has an angle bracket in it
 
 BY_ID = {t["id"]: t for t in TYPES}
 
